@@ -9,8 +9,9 @@ import sys
 
 VERIF = os.path.dirname(os.path.dirname(os.path.abspath(__file__)))
 REPO = os.path.abspath(os.environ.get("HGMON_REPO", "/repo"))
-OUT = os.path.join(VERIF, "out")
-EVIDENCE = os.path.join(VERIF, "evidence")
+OUT = os.environ.get("HGMON_OUT") or os.path.join(VERIF, "out")
+# HGMON_EVIDENCE_DIR redirects evidence when the checks are pointed at a seeded (broken) tree
+EVIDENCE = os.environ.get("HGMON_EVIDENCE_DIR") or os.path.join(VERIF, "evidence")
 REPLAY_DIR = os.path.join(OUT, "replay")
 TMP = os.path.join(OUT, "tmp")
 KNOWN_FINDINGS = os.path.join(VERIF, "known_findings.json")
